@@ -405,6 +405,69 @@ pub fn drive_leak(ctx: &mut Ctx, rng: &mut Rng, thorough: bool) {
     }
 }
 
+/// C20: configuration loading and validation paths (accepted and refused configurations, both sources): every log
+/// record, error value and panic message they produce is scanned for the seed
+pub fn drive_cfgleak(ctx: &mut Ctx, rng: &mut Rng, workdir: &str) {
+    use roughenough::config::{is_valid_config, make_config};
+    let seeds: Vec<Vec<u8>> = vec![unhex(DEFAULT_SEED), rng.bytes(32), rng.bytes(32)];
+    std::fs::create_dir_all(workdir).ok();
+    for seed in seeds {
+        let secrets = rig::Secrets::new(&seed);
+        ctx.emit(json!({"ev": "new", "batch": 0, "fault": 0, "level": "Trace", "announced_ok": true, "client_stats": false, "what": "configuration loaders"}));
+        rig::set_log_level(5);
+        let _ = rig::take_logs();
+        let sh = hex(&seed);
+        // (key, value) overrides on top of a valid base; None removes the key
+        let variants: Vec<Vec<(&str, Option<String>)>> = vec![
+            vec![],
+            vec![("kms_protection", Some("arn:aws:kms:us-east-2:111122223333:key/1234abcd-12ab-34cd-56ef-1234567890ab".into()))],
+            vec![("kms_protection", Some("projects/p/locations/global/keyRings/r/cryptoKeys/k".into()))],
+            vec![("kms_protection", Some("plaintext".into()))],
+            vec![("seed", Some(sh[..62].to_string()))],
+            vec![("seed", Some(format!("{}ab", sh)))],
+            vec![("port", Some("0".into()))],
+            vec![("batch_size", Some("65".into()))],
+            vec![("fault_percentage", Some("51".into()))],
+            vec![("num_workers", Some("0".into()))],
+            vec![("client_stats", Some("on".into()))],
+            vec![("client_stats", Some("on".into())), ("persistence_directory", Some("/nonexistent-dir".into()))],
+            vec![("interface", None)],
+            vec![("interface", Some("not-an-address".into()))],
+            vec![("health_check_port", Some("8000".into())), ("status_interval", Some("1".into()))],
+            vec![("frobnicate", Some("1".into()))],
+        ];
+        for (vi, var) in variants.iter().enumerate() {
+            for src in ["file", "env"] {
+                let mut kv: Vec<(String, String)> = vec![("interface".into(), "127.0.0.1".into()), ("port".into(), "8686".into()), ("seed".into(), sh.clone())];
+                for (k, val) in var {
+                    kv.retain(|(kk, _)| kk != k);
+                    if let Some(x) = val { kv.push((k.to_string(), x.clone())); }
+                }
+                let all_env = ["PORT", "INTERFACE", "SEED", "BATCH_SIZE", "STATUS_INTERVAL", "KMS_PROTECTION", "HEALTH_CHECK_PORT", "CLIENT_STATS", "FAULT_PERCENTAGE", "NUM_WORKERS", "PERSISTENCE_DIRECTORY", "FROBNICATE"];
+                for k in all_env { std::env::remove_var(format!("ROUGHENOUGH_{}", k)); }
+                let arg = if src == "env" {
+                    for (k, x) in &kv { std::env::set_var(format!("ROUGHENOUGH_{}", k.to_uppercase()), x); }
+                    "ENV".to_string()
+                } else {
+                    let p = format!("{}/leak.yaml", workdir);
+                    std::fs::write(&p, kv.iter().map(|(k, x)| format!("{}: {}\n", k, x)).collect::<String>()).unwrap();
+                    p
+                };
+                let r = crate::util::guarded(|| match make_config(&arg) {
+                    Ok(c) => { let ok = is_valid_config(c.as_ref()); format!("valid={}", ok) }
+                    Err(e) => format!("{:?}", e),
+                });
+                for k in all_env { std::env::remove_var(format!("ROUGHENOUGH_{}", k)); }
+                let text = match r { Ok(s) => s, Err(p) => p };
+                ctx.emit(json!({"ev": "log", "level": 1, "site": format!("config result/panic text, variant {} via {}", vi, src), "leak": secrets.found_in(text.as_bytes())}));
+                for (lvl, site, t) in rig::take_logs() {
+                    ctx.emit(json!({"ev": "log", "level": lvl, "site": site, "leak": secrets.found_in(t.as_bytes()), "variant": vi}));
+                }
+            }
+        }
+    }
+}
+
 /// C17 wiring: traffic mixes with both recorder kinds
 pub fn drive_stats(ctx: &mut Ctx, rng: &mut Rng, thorough: bool) {
     for (k, client_stats) in [false, true, false, true].iter().enumerate() {
@@ -425,15 +488,16 @@ pub fn drive_stats(ctx: &mut Ctx, rng: &mut Rng, thorough: bool) {
 /// C11: a drain loop kept busy for longer than the radius: one datagram is injected (and the worker delayed) at every
 /// recv, so a single process_events call signs batches over several seconds
 pub fn drive_slowdrain(ctx: &mut Ctx, rng: &mut Rng, thorough: bool) {
-    for batch in [1u8, 4] {
+    // batch sizes for which the whole run fits into ONE wake-up (at most 16 batches are handled per wake-up)
+    for batch in [8u8, 64] {
         let mut rig = match new_section(ctx, cfg(batch, 0, 0, 8)) { Some(r) => r, None => continue };
-        let n = if thorough { 140 } else { 100 };
+        let n = if thorough { 120 } else { 100 };
         let sends = vec![(0usize, valid_request(rng, Proto::Google, 1024, None))];
         let inj: Vec<(String, usize, usize, Vec<u8>)> = (1..n).map(|k| ("recv".to_string(), k, k % 8, valid_request(rng, if k % 2 == 0 { Proto::Google } else { Proto::Ietf }, 1024, None))).collect();
         rig.recv_sleep_ms.set(60);
         run_round_at(ctx, &mut rig, sends, inj, false);
         rig.recv_sleep_ms.set(0);
-        if batch == 1 && !thorough { break; }
+        if !thorough { break; }
     }
 }
 
@@ -472,6 +536,7 @@ pub fn record(driver: &str, seed: u64, tier: &str, out_path: &str, inp: &str) {
             "stats" => drive_stats(&mut ctx, &mut rng, thorough),
             "mixed" => drive_mixed(&mut ctx, &mut rng),
             "slowdrain" => drive_slowdrain(&mut ctx, &mut rng, thorough),
+            "cfgleak" => drive_cfgleak(&mut ctx, &mut rng, &format!("{}.cfgleak", out_path)),
             other => { eprintln!("unknown driver {}", other); std::process::exit(2); }
         }
     }
